@@ -23,10 +23,21 @@ class Normalizer(object):
         self._pos = {}
 
     # ---- facts
+    @staticmethod
+    def _int_only(c):
+        if isinstance(c, QFact):
+            return False
+        c = sp.sympify(c)
+        return not c.has(sp.Indexed) and all(s.is_integer for s in c.free_symbols)
+
     def holds(self, goal, bound):
         extra = []
         for (ix, lo, hi) in bound:
             extra += [ix >= lo, ix <= hi]
+        goal = sp.sympify(goal)
+        if self._int_only(goal):
+            # pure index arithmetic: keep only the integer facts (quantified value facts only slow z3 down)
+            return sym.entails([c for c in self.conds + extra if self._int_only(c)], goal)
         return sym.entails(self.conds + extra, goal)
 
     def positive(self, e, bound):
@@ -55,19 +66,53 @@ class Normalizer(object):
 
     # ---- atoms for sums
     def atom(self, dep, ix, lo, hi):
-        k = Symbol('_k', integer=True)
-        body = dep.xreplace({ix: k})
-        frees = sorted([s for s in (body.free_symbols | lo.free_symbols | hi.free_symbols)
-                        if s.is_Symbol and s.is_integer and s != k and str(s).startswith('_')], key=str)
-        # keep only *index* parameters (names starting with '_' are bound/free indices); size symbols stay as is
+        """hash-consed atom for  Sum_{ix=lo}^{hi} dep.  A product of index-dependent factors with ONE inner sum atom
+        that depends on ix is merged into a multi-index sum whose limits are put in a canonical order, so that
+        Sum_i Sum_j f and Sum_j Sum_i f get the same atom (rectangular ranges only)."""
+        import itertools
+        limits = [(ix, lo, hi)]
+        body = dep
+        inner = [f for f in sp.Mul.make_args(dep)
+                 if isinstance(f, sp.core.function.AppliedUndef) and type(f).__name__ in self.defs and ix in f.free_symbols]
+        if len(inner) == 1 and all(not (isinstance(g, sp.core.function.AppliedUndef) and type(g).__name__ in self.defs)
+                                   for f in sp.Mul.make_args(dep) if f is not inner[0] for g in f.atoms(sp.core.function.AppliedUndef)):
+            ibody, ilimits, iparams = self.defs[type(inner[0]).__name__]
+            ren = dict(zip(iparams, inner[0].args))
+            fresh = [Symbol('_m%d_%d' % (len(self.defs), n), integer=True) for n in range(len(ilimits))]
+            ren.update({l[0]: f for l, f in zip(ilimits, fresh)})
+            il = [(f, l[1].xreplace(ren), l[2].xreplace(ren)) for l, f in zip(ilimits, fresh)]
+            bound_syms = set(fresh) | {ix}
+            if all(not ((l[1].free_symbols | l[2].free_symbols) & bound_syms) for l in il + limits):
+                rest = sp.Mul(*[f for f in sp.Mul.make_args(dep) if f is not inner[0]])
+                body = rest * ibody.xreplace(ren)
+                limits = il + limits
+        bsyms = [l[0] for l in limits]
+        frees = sorted([s for s in set().union(body.free_symbols, *[l[1].free_symbols | l[2].free_symbols for l in limits])
+                        if s.is_Symbol and s.is_integer and s not in bsyms and str(s).startswith('_')], key=str)
         pk = [Symbol('_p%d' % n, integer=True) for n in range(len(frees))]
-        ren = dict(zip(frees, pk))
-        cbody = body.xreplace(ren)
-        key = (sp.srepr(cbody), sp.srepr(lo.xreplace(ren)), sp.srepr(hi.xreplace(ren)))
+        pren = dict(zip(frees, pk))
+        # canonical order of limits: by range, ties broken by minimal srepr of the renamed body
+        groups = {}
+        for l in limits:
+            groups.setdefault((sp.srepr(l[1].xreplace(pren)), sp.srepr(l[2].xreplace(pren))), []).append(l)
+        best = None
+        orders = [[]]
+        for key in sorted(groups):
+            perms = list(itertools.permutations(groups[key])) if len(groups[key]) <= 3 else [tuple(groups[key])]
+            orders = [o + list(pm) for o in orders for pm in perms]
+        for order in orders[:24]:
+            ren = dict(pren)
+            ren.update({l[0]: Symbol('_k%d' % n, integer=True) for n, l in enumerate(order)})
+            cb = body.xreplace(ren)
+            cl = [(ren[l[0]], l[1].xreplace(ren), l[2].xreplace(ren)) for l in order]
+            k = (sp.srepr(cb), tuple((sp.srepr(x[1]), sp.srepr(x[2])) for x in cl))
+            if best is None or k < best[0]:
+                best = (k, cb, cl)
+        key, cbody, climits = best
         if key not in self.atoms:
             name = 'A%d' % len(self.atoms)
             self.atoms[key] = name
-            self.defs[name] = (cbody, lo, hi)
+            self.defs[name] = (cbody, climits, pk)
         name = self.atoms[key]
         if frees:
             return Function(name, real=True)(*frees)
@@ -118,28 +163,42 @@ class Normalizer(object):
     # ---- main
     def norm(self, e, bound=()):
         e = sp.sympify(e)
+        if isinstance(e, sp.Indexed):
+            return e.func(e.base, *[(self.norm(i, bound) if not i.is_Atom else i) for i in e.indices])
         if e.is_Atom:
             return e
-        if isinstance(e, sp.Indexed):
-            return e.func(e.base, *[self.norm(i, bound) for i in e.indices])
         if isinstance(e, Lg):
             return self.split_log(self.norm(e.args[0], bound), bound)
         if isinstance(e, Ex):
             a = self.canon(self.norm(e.args[0], bound))
             return Ex(a)
         if isinstance(e, Erf):
-            return Erf(self.canon(self.norm(e.args[0], bound)))
+            a = self.canon(self.norm(e.args[0], bound))
+            if a.could_extract_minus_sign():
+                return -Erf(-a)          # erf is odd
+            return Erf(a)
         if isinstance(e, sp.Piecewise):
             return self.norm(self.resolve_pw(e, bound), bound) if self.resolve_pw(e, bound) is not e else \
                 sp.Piecewise(*[(self.norm(v, bound), c) for v, c in e.args])
         if isinstance(e, Sum):
-            lims = list(e.limits)
+            lims = list(e.limits)          # innermost first
             (ix, lo, hi) = lims[0]
-            body = self.norm(e.function, tuple(bound) + ((ix, lo, hi),))
-            inner = self.norm_sum(body, ix, self.norm(lo, bound), self.norm(hi, bound), bound)
+            outer = tuple((l[0], l[1], l[2]) for l in reversed(lims[1:]))
+            inner_bound = tuple(bound) + outer
+            body = self.norm(e.function, inner_bound + ((ix, lo, hi),))
+            inner = self.norm_sum(body, ix, self.norm(lo, inner_bound), self.norm(hi, inner_bound), inner_bound)
             if len(lims) > 1:
                 return self.norm(Sum(inner, *lims[1:]), bound)
             return inner
+        if isinstance(e, sp.Abs):
+            a = self.norm(e.args[0], bound)
+            if self.positive(a, bound):
+                return a
+            if self.positive(-a, bound):
+                return -a
+            return sp.Abs(a)
+        if isinstance(e, sp.floor):
+            return self.norm_floor(self.norm(e.args[0], bound), bound)
         if e.is_Pow and e.exp.is_Rational and e.exp.q == 2:
             b = self.norm(e.base, bound)
             # sqrt(x**2 * y) etc. is left to sympy; sqrt(c**2)=c for positive c
@@ -154,6 +213,22 @@ class Normalizer(object):
                     keep = keep * f
             return r * sp.Pow(keep, e.exp)
         return e.func(*[self.norm(a, bound) for a in e.args])
+
+    def norm_floor(self, a, bound):
+        a = sp.together(sp.expand(a))
+        num, den = sp.fraction(a)
+        if den == 1:
+            return a if a.is_integer else sp.floor(a)
+        num = sp.expand(num)
+        q = sp.Integer(0)
+        for t in sp.Add.make_args(num):
+            r = sp.cancel(t / den)
+            if sp.fraction(r)[1] == 1:
+                q += r
+        rem = sp.expand(num - q * den)
+        if self.holds(sp.And(den > 0, rem >= 0, rem < den), bound):
+            return q
+        return sp.floor(a)
 
     def resolve_pw(self, e, bound):
         for v, c in e.args:
@@ -177,12 +252,17 @@ class Normalizer(object):
             deltas = [f for f in sp.Mul.make_args(dep) if isinstance(f, KroneckerDelta) and ix in f.free_symbols]
             if deltas:
                 dlt = deltas[0]
-                others = [a for a in dlt.args if a != ix]
-                if len(others) == 1 and ix not in others[0].free_symbols and \
-                        self.holds(sp.And(others[0] >= lo, others[0] <= hi), bound):
-                    rest = sp.Mul(*[f for f in sp.Mul.make_args(dep) if f is not dlt])
-                    out += c * self.norm(rest.xreplace({ix: others[0]}), bound)
-                    continue
+                df = sp.expand(dlt.args[0] - dlt.args[1])
+                cf = df.coeff(ix)
+                r0 = sp.expand(df - cf * ix)
+                if cf in (1, -1) and ix not in r0.free_symbols:
+                    sol = sp.expand(-r0 / cf)
+                    if self.holds(sp.And(sol >= lo, sol <= hi), bound):
+                        rest = sp.Mul(*[f for f in sp.Mul.make_args(dep) if f is not dlt])
+                        out += c * self.norm(rest.xreplace({ix: sol}), bound)
+                        continue
+                    if self.holds(sp.Or(sol < lo, sol > hi), bound):
+                        continue
             if dep.is_Add:
                 # expansion did not split (e.g. inside a power): keep whole term as atom
                 pass
